@@ -343,8 +343,12 @@ func (eng *Engine) synthLockContracts() {
 				state = "!= 0"
 				what = "lock-held-by-the-caller"
 			}
-			fmt.Fprintf(&b, "//@ contract %s#locks props %s havoc\n", ref, strings.Join(ld.Props, ","))
-			fmt.Fprintf(&b, "//@   assert locks\n//@   assert only none\n")
+			if ld.WHeld[name] {
+				state = "== 2"
+				what = "lock-write-held-by-the-caller"
+			}
+			fmt.Fprintf(&b, "//@ contract %s#locks props %s havoc noinv\n", ref, strings.Join(ld.Props, ","))
+			fmt.Fprintf(&b, "//@   arith math\n//@   assert locks\n//@   assert only none\n")
 			fmt.Fprintf(&b, "//@   requires %s != nil\n", recv)
 			fmt.Fprintf(&b, "//@   requires[%s-at-entry] %s.%s %s\n", what, recv, ld.Mutex, state)
 			fmt.Fprintf(&b, "//@   ensures[%s-at-exit] %s.%s %s\n", what, recv, ld.Mutex, state)
@@ -552,6 +556,7 @@ type Exec struct {
 	boundMake bool
 	guardN   map[string]int
 	ownsN    int
+	loopMutexPre []map[string]string
 	regionStart token.Pos // where the verified region (body or fragment) begins: variables declared before it have an entry value
 	finalN   int
 	written  map[string]bool
@@ -565,7 +570,7 @@ func (eng *Engine) newExec(fi *FuncInfo, c *Contract, prop string) *Exec {
 	ex := &Exec{eng: eng, fn: fi, contract: c, prop: prop, init: map[types.Object]*Val{}, lets: map[string]*Val{}, hiddenVars: map[string]types.Object{},
 		notes: map[string]bool{}, assumptions: map[string]bool{}, dropped: map[string]int{}, unknown: map[string]int{}, modelUsed: map[string]int{},
 		usedContracts: map[string]int{}, assumedUsed: map[string]int{}, callN: map[string]int{}, callSites: map[string]map[token.Pos]int{}, nameCount: map[string]int{}, guardN: map[string]int{},
-		safetyKinds: map[string]bool{"index": true, "slice-bounds": true, "div-by-zero": true, "make-size": true, "make-cap": true, "make-chan-size": true, "type-assert": true, "panic": true}}
+		safetyKinds: map[string]bool{"index": true, "slice-bounds": true, "div-by-zero": true, "make-size": true, "make-cap": true, "make-chan-size": true, "type-assert": true, "panic": true, "ticker-interval-positive": true}}
 	if fi != nil && fi.Pkg != nil {
 		ex.info = fi.Pkg.TypesInfo
 	}
@@ -816,6 +821,33 @@ func (eng *Engine) verify(c *Contract, prop string) (rep *FuncReport, err error)
 			ex.lets[cl.LetName] = ex.evalClauseVal(st, cl, ex.entry, bodyPos, nil)
 		case "requires", "domain":
 			st.assume(ex.evalClause(st, cl, ex.entry, bodyPos, nil, nil))
+		}
+	}
+	// lock discipline: this goroutine holds no mutex when the function is entered, except what the contract's
+	// own preconditions say about the receiver's mutex (the heap cell of a mutex models THIS goroutine's hold on it)
+	if ex.lockCheck {
+		recvRef, recvKeyPrefix := "", ""
+		if fi.Sig != nil && fi.Sig.Recv() != nil {
+			if n := namedOf(fi.Sig.Recv().Type()); n != nil {
+				recvKeyPrefix = heapTypeKey(n) + "#"
+				if _, isPtr := fi.Sig.Recv().Type().Underlying().(*types.Pointer); isPtr {
+					recvRef = ex.readVar(st, fi.Sig.Recv()).S
+				}
+			}
+		}
+		keys := make([]string, 0, len(eng.mutexKeys))
+		for k := range eng.mutexKeys {
+			keys = append(keys, k)
+		}
+		sort.Strings(keys)
+		for _, k := range keys {
+			eng.regHeap(k, "(Array Int Int)")
+			arr := ex.heapArr(st, k, "Int")
+			if recvRef != "" && strings.HasPrefix(k, recvKeyPrefix) {
+				st.assume("(forall ((r Int)) (! (=> (not (= r " + recvRef + ")) (= (select " + arr + " r) 0)) :pattern ((select " + arr + " r))))")
+			} else {
+				st.assume("(forall ((r Int)) (! (= (select " + arr + " r) 0) :pattern ((select " + arr + " r))))")
+			}
 		}
 	}
 	// `assert uses <lemma>`: a separately proved lemma is available to this function's obligations
@@ -1180,7 +1212,7 @@ func (ex *Exec) frameCheck(rec *recorder, pos token.Pos) {
 
 // objInvs assumes (entry) the object invariants of the receiver.
 func (ex *Exec) objInvs(st *State, entry bool, pos token.Pos) {
-	if ex.fn.Sig == nil || ex.fn.Sig.Recv() == nil || ex.contract.Unshared {
+	if ex.fn.Sig == nil || ex.fn.Sig.Recv() == nil || ex.contract.Unshared || ex.contract.NoInv {
 		return
 	}
 	n := namedOf(ex.fn.Sig.Recv().Type())
@@ -1210,7 +1242,7 @@ func (ex *Exec) evalObjInv(st *State, oi *ObjInv, pos token.Pos) string {
 }
 
 func (ex *Exec) objInvsExit(st *State, pos token.Pos) {
-	if ex.fn.Sig == nil || ex.fn.Sig.Recv() == nil {
+	if ex.fn.Sig == nil || ex.fn.Sig.Recv() == nil || (ex.contract != nil && ex.contract.NoInv) {
 		return
 	}
 	n := namedOf(ex.fn.Sig.Recv().Type())
